@@ -1,5 +1,5 @@
 import IdspModel.Lemmas.Atan2Tab
-/-! `atani` table, chunk 5 of 10: quotient fields 40960 … 49152 (complete range, evaluated by the kernel). -/
+/-! `atani` table, chunk 5 of 8: quotient fields 40960 … 49152 (complete range, evaluated by the kernel). -/
 namespace Idsp
 
 theorem atanTab5 : atanRun 40960 8193 = true := by decide +kernel
